@@ -1004,7 +1004,8 @@ def main(run, replay=None):
              "flag_true_proved_by_tequiv": 0, "flag_false_but_pointwise_symmetric": 0, "flag_model_true_impl_false": 0,
              "forms_pointwise_symmetric": 0, "forms_not_symmetric": 0, "check_linearity_off": 0, "arity_python_refused": 0,
              "unknown_kw_refused": 0, "flag_raises": 0, "lowered_model_proved": 0,
-             "wrong_count_refused": 0, "refusals_other_kind": 0}
+             "wrong_count_refused": 0, "refusals_other_kind": 0,
+             "keyword_name_cancelled_at_construction": 0}
     call_kinds, err_kinds, unproved_kinds, not_tied = {}, {}, {}, {}
     failing = []        # (ci, call id or -1, sig, message)
     unexplained = []    # model / impl disagreements with no oracle failure
@@ -1052,6 +1053,11 @@ def main(run, replay=None):
         # ---- calls
         for call, out in zip(c["calls"], r["calls"]):
             kind = call["kind"]
+            if kind not in ("kw_unknown", "arity_python", "arity_zip") and \
+                    any(n not in r["free"]["fields"] + r["free"]["consts"] for n, _ in call["kw"]):
+                # sympy cancelled the only occurrences of a symbol when the form was built: the name is not free in the real form
+                kind = "kw_unknown"
+                stats["keyword_name_cancelled_at_construction"] += 1
             call_kinds[kind] = call_kinds.get(kind, 0) + 1
             stats["calls"] += 1
             cid = call["id"]
